@@ -31,6 +31,7 @@ int   g_hw_ok;    /* bytes accepted by Hwrite so far */
 int   g_seek_n;   /* Hseek calls */
 int   g_seek_off; /* position of the access record */
 int   g_iofail;   /* some stubbed I/O step reported failure */
+int   g_setnt_failed; /* DFKsetNT refused the number type */
 int32 g_aid;      /* the access id the variable is attached with */
 #define g_pos g_seek_off
 #define g_hw_bytes g_hw_ok
@@ -74,6 +75,9 @@ H4V_DECL_ND(h4v_ulong);
 /* defined in error.c, which is not part of the unit */
 const char *cdf_routine_name;
 
+#ifdef H4V_NATIVE
+static int8 *tBuf; /* putget.c's conversion buffer (tentative definition, completed by the include below) */
+#endif
 /* ------------------------------------------------------------------ trusted stubs */
 void NCadvise(int err, const char *fmt, ...) {}
 void nc_serror(const char *fmt, ...) {}
@@ -104,6 +108,11 @@ Hinquire(int32 access_id, int32 *pfile_id, uint16 *ptag, uint16 *pref, int32 *pl
         g_iofail = 1;
         return FAIL;
     }
+#ifdef H4V_NATIVE
+    /* native replay: the real hdf_xdr_NCvdata runs; it calls Hinquire exactly once per run */
+    if (!g_fw_mode)
+        g_runs++;
+#endif
     if (plength)
         *plength = g_elem_length;
     if (pspecial)
@@ -132,7 +141,10 @@ Hwrite(int32 access_id, int32 length, const void *data)
     H4V_CHECK(access_id == g_aid && access_id != FAIL, "Hwrite on the variable's aid");
     H4V_CHECK(data != NULL && length > 0, "Hwrite: a buffer and a positive length");
     H4V_CHECK(PG_R_OK(data, length), "Hwrite: the source buffer holds `length` bytes");
-    g_hw_n++;
+#ifdef H4V_NATIVE
+    if (g_fw_mode || !((char *)data == (char *)tBuf || ((char *)data >= g_rq_values && (char *)data < g_rq_values + 27 * C03_W)))
+#endif
+        g_hw_n++;
     H4V_ND(int, hwrite_fail);
     if (hwrite_fail) {
         g_iofail = 1;
@@ -151,6 +163,10 @@ Hwrite(int32 access_id, int32 length, const void *data)
                           (unsigned long)length <= g_fill_bytes,
                       "every fill chunk lies inside the buffer holding the (converted) fill values");
     }
+#ifdef H4V_NATIVE
+    if (!g_fw_mode && ((char *)data == (char *)tBuf || ((char *)data >= g_rq_values && (char *)data < g_rq_values + 27 * C03_W)))
+        g_cells += length / C03_W;
+#endif
     g_hw_bytes += length;
     g_pos += length;
     return length;
@@ -167,6 +183,10 @@ Hread(int32 access_id, int32 length, void *data)
         g_iofail = 1;
         return FAIL;
     }
+#ifdef H4V_NATIVE
+    if (!g_fw_mode)
+        g_cells += length / C03_W;
+#endif
     if (g_rd_n == 0)
         g_user_pos = g_pos;
     g_rd_n++;
@@ -267,9 +287,10 @@ NC_findattr(NC_array **ap, const char *name)
 int
 DFKsetNT(int32 ntype)
 {
+    /* fails only for a number type the library does not know: not an I/O failure */
     H4V_ND(int, setnt_fail);
     if (setnt_fail) {
-        g_iofail = 1;
+        g_setnt_failed = 1;
         return FAIL;
     }
     return SUCCEED;
@@ -330,7 +351,9 @@ int32 hdf_get_vp_aid(NC *handle, NC_var *vp)
 
 #ifndef PGIO_VARIO
 /* ======================= (2) hdf_xdr_NCvdata under contract: first write ======================= */
+#ifndef FW_MAXOFF
 #define FW_MAXOFF (4L * 1024 * 1024)
+#endif
 #define FW_FIRST (g_elem_length <= 0)
 #define FW_FILLON(handle) ((((handle)->flags & NC_NOFILL) == 0) || g_isspecial == SPECIAL_COMP)
 #define FW_WRITE(handle) ((handle)->xdrs->x_op == XDR_ENCODE)
@@ -386,14 +409,24 @@ static int hdf_xdr_NCvdata(NC *handle, NC_var *vp, unsigned long where, nc_type 
 #else
 /* ======================= (1) NCvario under contract; hdf_xdr_NCvdata is the run logger ======================= */
 
+/* -DVA_SKIP_FINDINGS switches off the three clauses the tree as found violates (see the report:
+   partial transfer before an out-of-range request fails; a failing request grows the unlimited
+   dimension; a run of 0 cells is issued when an inner edge is 0), so that the remaining clauses stay
+   checkable.  Obligation NCvario_r2/_r3 has them ON. */
+#ifdef VA_SKIP_FINDINGS
+#define VA_F(c) 1
+#else
+#define VA_F(c) (c)
+#endif
 /* what EVERY run handed to the I/O routine has to satisfy (checked at each call site) */
 static int hdf_xdr_NCvdata(NC *handle, NC_var *vp, unsigned long where, nc_type type, uint32 count, void *values)
     /* (a) no run at all for a request that reaches outside the extent in some dimension */
-    __CPROVER_requires(!g_rq_bad)
+    __CPROVER_requires(VA_F(!g_rq_bad))
     /* (a) no run touches a cell outside [start, start+edge): stated for an arbitrary disk cell */
     __CPROVER_requires(!(where <= g_q_off && g_q_off < where + (unsigned long)count * C03_W) || g_q_inside)
     /* (b) runs are non-empty, stay inside the request, and arrive in the order of the caller's buffer */
-    __CPROVER_requires(handle == e_h && vp == g_vp && count >= 1 && g_cells + (long)count <= g_total)
+    __CPROVER_requires(VA_F(count >= 1))
+    __CPROVER_requires(handle == e_h && vp == g_vp && g_cells + (long)count <= g_total)
     __CPROVER_requires((char *)values == g_rq_values + g_cells * C03_W)
     /* (b) the selected cell with row-major index g_c is transferred by the run that covers index g_c,
            from/to the disk offset of that cell */
@@ -439,18 +472,19 @@ bool_t H4_NCcoordck(NC *handle, NC_var *vp, const long *coords)
     __CPROVER_ensures(CK3_BAD(handle, vp, coords, __CPROVER_old(vp->numrecs)) ==> __CPROVER_return_value == FALSE)
     __CPROVER_ensures((!CK3_BAD(handle, vp, coords, __CPROVER_old(vp->numrecs)) && !g_iofail) ==> __CPROVER_return_value == TRUE)
     __CPROVER_ensures(g_iofail ==> __CPROVER_return_value == FALSE)
-    /* state changes only when a record variable grows on the write path */
+    /* an invalid coordinate, a fixed-size variable, an existing record: no state change, no I/O at all */
+    __CPROVER_ensures((CK3_BAD(handle, vp, coords, __CPROVER_old(vp->numrecs)) ||
+                       !CK3_GROWS(vp, coords, __CPROVER_old(vp->numrecs))) ==>
+                      (vp->numrecs == __CPROVER_old(vp->numrecs) && handle->numrecs == __CPROVER_old(handle->numrecs) &&
+                       handle->flags == __CPROVER_old(handle->flags) && g_hw_n == __CPROVER_old(g_hw_n) && g_iofail == 0))
+    /* growth of a record variable on the write path */
     __CPROVER_ensures((__CPROVER_return_value == TRUE && CK3_GROWS(vp, coords, __CPROVER_old(vp->numrecs))) ==>
                       ((long)vp->numrecs == coords[0] + 1 && handle->xdrs->x_op == XDR_ENCODE &&
                        (long)handle->numrecs == (coords[0] + 1 > (long)__CPROVER_old(handle->numrecs)
                                                      ? coords[0] + 1 : (long)__CPROVER_old(handle->numrecs))))
-    __CPROVER_ensures((!g_iofail && !(__CPROVER_return_value == TRUE && CK3_GROWS(vp, coords, __CPROVER_old(vp->numrecs)))) ==>
-                      (vp->numrecs == __CPROVER_old(vp->numrecs) && handle->numrecs == __CPROVER_old(handle->numrecs) &&
-                       handle->flags == __CPROVER_old(handle->flags) && g_hw_n == __CPROVER_old(g_hw_n)))
-    /* fill records are written only for growth with fill mode on */
-    __CPROVER_ensures(g_hw_n != __CPROVER_old(g_hw_n) ==>
-                      (CK3_GROWS(vp, coords, __CPROVER_old(vp->numrecs)) && (__CPROVER_old(handle->flags) & NC_NOFILL) == 0 &&
-                       handle->xdrs->x_op == XDR_ENCODE));
+    /* fill records (the only I/O) are written only for growth with fill mode on */
+    __CPROVER_ensures((g_hw_n != __CPROVER_old(g_hw_n) || g_iofail) ==>
+                      ((__CPROVER_old(handle->flags) & NC_NOFILL) == 0 && handle->xdrs->x_op == XDR_ENCODE));
 
 static unsigned long NC_varoffset(NC *handle, NC_var *vp, const long *coords)
     __CPROVER_requires(handle == e_h && vp == g_vp && coords != NULL && handle->file_type == HDF_FILE && IO_GEOM(vp))
@@ -492,7 +526,7 @@ static char      s_attrvals[8];
 static void
 mk_skel(void)
 {
-    g_hw_n = g_hw_ok = g_seek_n = g_seek_off = g_iofail = 0;
+    g_hw_n = g_hw_ok = g_seek_n = g_seek_off = g_iofail = g_setnt_failed = 0;
     g_runs = 0;
     g_cells = 0;
     g_user_n = g_user_pos = g_user_sum = g_user_len = g_rd_n = 0;
@@ -605,10 +639,13 @@ h_NCvdata_firstwrite(void)
 
     int wr = (s_x.x_op == XDR_ENCODE), first = (elem_length <= 0);
     int fill = ((s_nc.flags & NC_NOFILL) == 0) || isspecial == SPECIAL_COMP;
+#if FW_MAXOFF > 3000000
     H4V_COVER(r == SUCCEED && wr && first && fill && where > 3000000 && g_conv_dest != NULL, "leading fill of 4 chunks, converted");
-    H4V_COVER(r == SUCCEED && wr && first && fill && where > 1000000 && where < 2000000 && where % 1000000 != 0 &&
-                  g_conv_dest == NULL, "leading fill: one full chunk and a shorter last one, native");
     H4V_COVER(r == SUCCEED && wr && first && fill && where == 2000000, "leading fill: exactly two full chunks");
+#endif
+    H4V_COVER(r == SUCCEED && wr && first && fill && where == 1000000, "leading fill: exactly one full chunk");
+    H4V_COVER(r == SUCCEED && wr && first && fill && where > 1000000 && where < 2000000 &&
+                  g_conv_dest == NULL, "leading fill: one full chunk and a shorter last one, native");
     H4V_COVER(r == SUCCEED && wr && first && fill && where > 0 && where < 100, "leading fill: one short chunk");
     H4V_COVER(r == SUCCEED && wr && first && fill && where == 0 && (long)v_len > 1000000 + FW_BYTES(count), "trailing fill only, chunked");
     H4V_COVER(r == SUCCEED && wr && first && !fill && where > 0, "no-fill first write seeks");
@@ -705,6 +742,7 @@ h_NCvario(void)
 {
     mk_skel();
     g_fw_mode = 0;
+    s_vp.aid  = g_aid; /* already attached (hdf_get_vp_aid is outside this obligation) */
     H4V_ND(int, rank);
     H4V_ASSUME(rank >= 1 && rank <= MAXR);
     /* vectors with one guard element in front (A-GUARD, see putget_u.c) */
@@ -779,7 +817,7 @@ h_NCvario(void)
     long c = 0, cdisk = 0;
     for (int i = 0; i < 3; i++)
         if (i < rank) {
-            H4V_ASSUME(k[i] >= 0 && (total == 0 || k[i] < edges[i]));
+            H4V_ASSUME(k[i] >= 0 && k[i] <= VA_MAXEDGE && (total == 0 || k[i] < edges[i]));
             c     = mul_small(c, edges[i]) + k[i];
             cdisk = (i == 0 ? 0 : mul_small(cdisk, (long)shape[i])) + start[i] + k[i];
         }
@@ -812,14 +850,14 @@ h_NCvario(void)
     H4V_CHECK(r == 0 || r == -1, "0 or -1");
     /* (a) a request reaching outside the extent in ANY dimension fails, and no run was issued */
     H4V_CHECK(!bad || r == -1, "(a) out-of-range request returns -1");
-    H4V_CHECK(!bad || g_runs == 0, "(a) no run is issued for an out-of-range request");
+    H4V_CHECK(VA_F(!bad || g_runs == 0), "(a) no run is issued for an out-of-range request");
     /* (a) ... and it changes nothing: no fill records, the unlimited dimension does not grow */
-    H4V_CHECK(!bad || (g_hw_n == 0 && s_vp.numrecs == old_nr && s_nc.numrecs == old_hnr),
+    H4V_CHECK(VA_F(!bad || (g_hw_n == 0 && s_vp.numrecs == old_nr && s_nc.numrecs == old_hnr)),
               "(a) out-of-range request writes no fill records and does not grow the unlimited dimension");
     /* (b) success: the runs cover every selected cell (exactly once, in order: run preconditions) */
     H4V_CHECK(r != 0 || g_cells == total, "(b) on success every selected cell was transferred");
     /* nothing valid is rejected, and a failing I/O step is reported */
-    H4V_CHECK(!(g_rq_proper && !g_iofail && (old_flags & NC_INDEF) == 0) || r == 0, "a valid request succeeds");
+    H4V_CHECK(!(g_rq_proper && !g_iofail && !g_setnt_failed && (old_flags & NC_INDEF) == 0) || r == 0, "a valid request succeeds");
     H4V_CHECK(!g_iofail || r == -1, "an I/O failure is reported");
     /* growth along the unlimited dimension */
     H4V_CHECK(!(r == 0 && g_rq_proper && rec && wr) ||
@@ -829,7 +867,7 @@ h_NCvario(void)
     H4V_CHECK(start[0] == start0 && edges[0] == edges0 && start[rank - 1] == start_g0 && edges[rank - 1] == edges_g0,
               "start / edges unchanged");
 
-    H4V_COVER(r == 0 && rank == MAXR && g_runs >= 4 && !rec, "odometer: 4+ runs at full rank, fixed-size variable");
+    H4V_COVER(r == 0 && rank == MAXR && g_runs >= 3 && !rec, "odometer: 3+ runs at full rank, fixed-size variable");
     H4V_COVER(r == 0 && rank == MAXR && g_runs == 1 && total >= 8, "one run for a request contiguous from dimension 0");
     H4V_COVER(r == 0 && rec && wr && rank >= 2 && s_vp.numrecs > v_numrecs, "record variable grows");
     H4V_COVER(r == 0 && rec && rank == 1 && total >= 2, "one-dimensional record variable");
@@ -839,3 +877,10 @@ h_NCvario(void)
     H4V_CANARY("NCvario end");
 }
 #endif
+
+/* API-level reproduction of the three NCvario findings (built library, gcc -fsanitize=address; 4x4
+   DFNT_NINT32 dataset "a" holding 100..115, new dataset "u" of shape unlimited x 2):
+     SDreaddata (a, start={1,0}, edge={1,0}, buf)  -> -1, but Hread(aid, 0, buf) copied rows 1..3 (48 bytes)
+                                                      into buf: heap-buffer-overflow for a request of 0 cells
+     SDwritedata(a, start={2,0}, edge={3,2}, data) -> -1 after rows 2 and 3 were overwritten
+     SDwritedata(u, start={2,1}, edge={1,2}, data) -> -1, SDgetinfo then reports extent 3 (was 0) */
